@@ -1,37 +1,49 @@
 #!/usr/bin/env python3
-"""tools/reseed_all.py [name-substring] — regression over the kept seeded changes: apply each seeded/<id>/patch.diff to
-/repo, run the checks listed in its meta.json (confirmed.caught_by), revert; prints caught / MISSED per seed and check.
-Development aid (modifies /repo while running; do not run other checks concurrently)."""
+"""tools/reseed_all.py [name-substring] [--shard i/n] — sensitivity regression over the kept seeded changes: each
+seeded/<id>/patch.diff is applied in a scratch worktree of /repo HEAD and the checks listed in its meta.json
+(confirmed.caught_by) are run against that tree (VERIF_REPO, --no-lean, seed 1); prints caught / caught(nfi) / MISSED per seed
+and check.  Results are merged into tools/reseed_last.json.  (/repo itself is not touched.)"""
 import json, os, subprocess, sys
 VERIF = os.path.dirname(os.path.dirname(os.path.abspath(__file__)))
-flt = sys.argv[1] if len(sys.argv) > 1 else ""
+flt = next((a for a in sys.argv[1:] if not a.startswith("--")), "")
+shard = next((a for a in sys.argv[1:] if a.startswith("--shard")), None)
+si, sn = (0, 1)
+if shard:
+    si, sn = [int(x) for x in (shard.split("=")[1] if "=" in shard else sys.argv[sys.argv.index(shard) + 1]).split("/")]
 rows = []
-for d in sorted(os.listdir(os.path.join(VERIF, "seeded"))):
-    if flt and flt not in d:
+names = [d for d in sorted(os.listdir(os.path.join(VERIF, "seeded"))) if not flt or flt in d]
+for idx, d in enumerate(names):
+    if idx % sn != si:
         continue
     sd = os.path.join(VERIF, "seeded", d)
     meta = json.load(open(os.path.join(sd, "meta.json")))
     checks = (meta.get("confirmed") or {}).get("caught_by") or [d[:3]]
-    p = subprocess.run(f"git -C /repo apply -3 {sd}/patch.diff 2>/dev/null || git -C /repo apply {sd}/patch.diff", shell=True, capture_output=True, text=True)
-    subprocess.run("git -C /repo reset -q", shell=True)
-    if p.returncode != 0:
-        rows.append((d, "PATCH-DOES-NOT-APPLY"))
-        print(rows[-1], flush=True)
-        subprocess.run("git -C /repo checkout -- .", shell=True)
-        continue
-    res = []
+    wt = f"/tmp/reseed_wt_{os.getpid()}"
+    subprocess.run(["git", "-C", "/repo", "worktree", "add", "-q", "--detach", wt, "HEAD"], check=True)
     try:
+        p = subprocess.run(f"git -C {wt} apply -3 {sd}/patch.diff 2>/dev/null || git -C {wt} apply {sd}/patch.diff", shell=True, capture_output=True, text=True)
+        if p.returncode != 0:
+            rows.append((d, "PATCH-DOES-NOT-APPLY"))
+            print(rows[-1], flush=True)
+            continue
+        res = []
         for c in checks:
             try:
-                q = subprocess.run(f"./check {c} --seed 1 --no-lean", shell=True, cwd=VERIF, capture_output=True, text=True, timeout=900)
+                q = subprocess.run(f"VERIF_REPO={wt} ./check {c} --seed 1 --no-lean", shell=True, cwd=VERIF, capture_output=True, text=True, timeout=1500)
                 out = q.stdout
             except subprocess.TimeoutExpired:
                 out = "VIOLATION timeout"
             v = [l for l in out.split("\n") if l.startswith("VIOLATION")]
             res.append(f"{c}:" + ("caught" if any("no-failing-input-found" not in l for l in v) else ("caught(nfi)" if v else "MISSED")))
+        rows.append((d, " ".join(res)))
+        print(rows[-1], flush=True)
     finally:
-        subprocess.run("git -C /repo checkout -- .", shell=True)
-    rows.append((d, " ".join(res)))
-    print(rows[-1], flush=True)
-json.dump(rows, open(os.path.join(VERIF, "tools", "reseed_last.json"), "w"), indent=1)
+        subprocess.run(["git", "-C", "/repo", "worktree", "remove", "--force", wt])
+out = os.path.join(VERIF, "tools", "reseed_last.json")
+try:
+    merged = dict(tuple(x) for x in json.load(open(out)))
+except Exception:  # noqa: BLE001
+    merged = {}
+merged.update(dict(rows))
+json.dump(sorted(merged.items()), open(out, "w"), indent=1)
 print("MISSED:", [r for r in rows if "MISSED" in r[1] or "nfi" in r[1] or "PATCH" in r[1]])
